@@ -760,6 +760,9 @@ func main() {
 		return
 	}
 	rng := vh.NewRng(args.Seed)
+	if d := lrsrv.CheckWiring(); d != "" {
+		res.Mismatch(vh.Mismatch{Section: "wiring", Function: "server.Start", Impl: d, Model: "harness wiring (internal/lrsrv)"})
+	}
 	sectionListing(rng.Fork("listing"))
 	sectionHistory(rng.Fork("history"))
 	sectionPaging(rng.Fork("paging"))
